@@ -163,9 +163,116 @@ def scenario(arg):
     return res
 
 
+# ----------------------------------------------------------------------------- definition histories (Superrun.tla)
+HIST_SUBS = ("0", "1", "2")
+
+
+def gen_super_history(rng, length):
+    ops = []
+    defined = False
+    while len(ops) < length:
+        k = rng.choice(["define", "get", "get", "is_stored", "new"]) if defined else "define"
+        if k == "define":
+            n = rng.randint(1, len(HIST_SUBS))
+            subs = rng.sample(HIST_SUBS, n)
+            ops.append(dict(a="define", subs=subs, name=rng.choice(["_sup", "sup"])))
+            defined = True
+        else:
+            ops.append(dict(a=k))
+    return ops
+
+
+def run_super_history(arg):
+    write, ops, mid_super = arg
+    d = tempfile.mkdtemp(prefix="verif_c14h_")
+    events = []
+    err = None
+    try:
+        run_layouts = {r: (SPACING * int(r), ("two", "one", "three")[int(r)]) for r in HIST_SUBS}
+        st, chunks_by_run = build(d, run_layouts, mid_super, False, write)
+        write_run_docs(st, run_layouts)
+        # row payloads identify (subrun, index)
+        ident = {}
+        for r in HIST_SUBS:
+            for i, x in enumerate(expected_rows(chunks_by_run[r], "top"), 1):
+                ident[(x[0], x[1], x[2])] = [int(r) + 1, i]
+        with warnings.catch_warnings():
+            warnings.simplefilter("ignore")
+            for op in ops:
+                ev = dict(a=op["a"], subs=[], rows=[], annot=[])
+                ev["is"] = False
+                try:
+                    if op["a"] == "define":
+                        st.define_run(op["name"], data=list(op["subs"]))
+                        ev["subs"] = [int(r) + 1 for r in op["subs"]]
+                    elif op["a"] == "get":
+                        chunks = list(st.get_iter("_sup", "top", progress_bar=False))
+                        for c in chunks:
+                            for x in c.data:
+                                ev["rows"].append(ident.get((int(x["time"]), int(strax.endtime(x)), int(x["v"])), [0, 0]))
+                            for k in (c.subruns or {}):
+                                if int(k) + 1 not in ev["annot"]:
+                                    ev["annot"].append(int(k) + 1)
+                    elif op["a"] == "is_stored":
+                        ev["is"] = bool(st.is_stored("_sup", "top"))
+                    else:
+                        st = st.new_context()
+                except Exception as e:  # noqa
+                    err = f"{op}: {type(e).__name__}: {e}"[:300]
+                    break
+                events.append(ev)
+        return dict(write=write, ops=ops, mid_super=mid_super, events=events, err=err)
+    finally:
+        shutil.rmtree(d, ignore_errors=True)
+
+
+def histories(chk):
+    """spec/Superrun.tla model-checked over all histories of the bound; seeded random histories of define_run (both name spellings) /
+    get / is_stored / new_context executed on real contexts and validated by TLC (SuperrunTrace.tla)."""
+    import random
+    quick = chk.tier == "quick"
+    cfg = f"CONSTANTS NSub = 3 RowsPer = 2 MaxLen = {4 if quick else 5}\n"
+    d = V.stage_spec(["Superrun"], {"Superrun.cfg": "SPECIFICATION Spec\n" + cfg + "INVARIANT ExactConcatenation\nINVARIANT RedefinedGone\n"
+                                                    "INVARIANT OrderedByStart\nCHECK_DEADLOCK FALSE\n"})
+    r = V.run_tlc(d, "Superrun", "Superrun.cfg", workers=4, timeout=1800)
+    chk.add_tlc(r, "Superrun.tla: all definition / use histories of the bound")
+    V.tlc_must_finish(r, "Superrun")
+    if r.violated:
+        raise V.MachineryError(f"Superrun.tla violates {r.violated}")
+    rng = random.Random(chk.seed + 14)
+    work = [(bool(i % 2), gen_super_history(rng, rng.randint(4, 8)), bool(i % 3 == 0)) for i in range(24 if quick else 160)]
+    res = V.pmap(run_super_history, work)
+    d = V.stage_spec(["Superrun", "SuperrunTrace"], {"MCT.tla": "---- MODULE MCT ----\nEXTENDS SuperrunTrace\n====\n",
+                                                      "MCT.cfg": "SPECIFICATION TraceSpec\nCONSTANTS NSub = 3 RowsPer = 3 MaxLen = 0\nINVARIANT Progress\n"
+                                                                 "INVARIANT ExactConcatenation\nINVARIANT RedefinedGone\nINVARIANT OrderedByStart\n"
+                                                                 "POSTCONDITION AllAccepted\nCHECK_DEADLOCK FALSE\n"})
+    with open(os.path.join(d, "traces.json"), "w") as f:
+        json.dump([dict(write=rr["write"], events=rr["events"]) for rr in res], f)
+    r = V.run_tlc(d, "MCT", "MCT.cfg", workers=1, timeout=1800, env={"TRACE_FILE": os.path.join(d, "traces.json")})
+    chk.add_tlc(r, f"trace validation of {len(res)} real superrun definition histories against Superrun.tla")
+    rej = {int(a): int(b) for a, b in re.findall(r'REJECTED trace", (\d+), "at event", (\d+)', r.out)}
+    if not r.ok and not rej:
+        raise V.MachineryError("SuperrunTrace failed to run: " + r.out[-2000:])
+    for i, rr in enumerate(res, 1):
+        txt = " ; ".join(o["a"] + (f"({o['name']},{o['subs']})" if o["a"] == "define" else "") for o in rr["ops"])
+        chk.case(key=json.dumps([rr["write"], rr["ops"]]), nontrivial=sum(o["a"] == "define" for o in rr["ops"]) > 1)
+        if rr["err"]:
+            chk.violation(f"C14:history:raises:{txt}", f"superrun history (write_superruns={rr['write']}) {txt} raised {rr['err']}",
+                          dict(history=[rr["write"], rr["ops"], rr["mid_super"]]))
+        elif i in rej:
+            ev = rej[i]
+            chk.violation(f"C14:history:rejected:{txt}:event{ev}",
+                          f"real superrun history (write_superruns={rr['write']}) {txt} is not a behaviour of spec/Superrun.tla: rejected at event {ev}: "
+                          f"{json.dumps(rr['events'][ev - 1]) if 0 < ev <= len(rr['events']) else ''}", dict(history=[rr["write"], rr["ops"], rr["mid_super"]]))
+        else:
+            chk.traces += 1
+    chk.extra["definition_histories"] = len(res)
+
+
 def run(chk):
     V.quiet_threads()
     quick = chk.tier == "quick"
+    histories(chk)
     work = []
     orders = [("0",), ("0", "1"), ("1", "0"), ("0", "1", "2"), ("2", "0", "1")] + ([] if quick else [("0", "1", "2", "3"), ("3", "1", "0", "2")])
     lays = [("one",), ("two", "one"), ("three", "two", "empty_last"), ("one", "three")]
@@ -218,7 +325,14 @@ def run(chk):
 
 
 def replay(chk, path):
-    a = json.load(open(path))["replay"]["arg"]
+    rp = json.load(open(path))["replay"]
+    if "history" in rp:
+        rr = run_super_history((rp["history"][0], rp["history"][1], rp["history"][2]))
+        for e in rr["events"]:
+            print(json.dumps(e)[:400])
+        print("error:", rr["err"], "(validate with bin/check C14: the history is judged by TLC against Superrun.tla)")
+        return 1 if rr["err"] else 0
+    a = rp["arg"]
     rr = scenario((tuple(a[0]), tuple(a[1]), a[2], a[3], a[4], a[5], a[6], a[7] if len(a) > 7 else True))
     print(rr["err"], rr["extra"], rr["obs"][:1])
     return 1 if (rr["err"] or rr["extra"]) else 0
